@@ -26,7 +26,8 @@ impl JmespathError {
         // Find each new line so we can create a formatted error message.
         let mut line: usize = 0;
         let mut column: usize = 0;
-        for c in expr.chars().take(offset) {
+        // `offset` is a byte position; count the characters in front of it.
+        for (_, c) in expr.char_indices().take_while(|&(i, _)| i < offset) {
             match c {
                 '\n' => {
                     line += 1;
